@@ -5,7 +5,8 @@ compared as sets.  Inadmissible operations form a separate stream where only 'pa
 import common as C
 from props import generic as G
 
-MAKE_TARGETS = ["Props/C16.vo"]
+MAKE_TARGETS = ["Props/C16.vo", "Props/C16s.vo"]
+PROPS = ["C16", "C16s"]
 PROFILES = ("release", "dev")
 RULE = ("shapes with widths 1,2,63,64,65,100,127,128,129,200 and heights >= widths (plus small ones); dense: random "
         "sequences over all 14 operations incl. column swaps across word boundaries, resizes to multiples of 64 followed by "
@@ -16,7 +17,7 @@ RULE = ("shapes with widths 1,2,63,64,65,100,127,128,129,200 and heights >= widt
 TRUSTED = [
     "Coq 8.16.1 kernel + vm_compute",
     "Spec/BitMatrix.v as the interface's meaning (incl. its 'undefined left of start_col' clause)",
-    "sparse half: no model proof yet -- the real SparseBinaryMatrix is compared with the Spec by correspondence only (partial)",
+    "Spec/SparseAdm.v: the admissibility predicate of the sparse implementation (its documented asserts and unimplemented! refusals, phase and staleness tracked in a ghost state)",
     "extraction (ExtrOcamlBasic only) + ocamlopt; sample cross-checked in the kernel",
     "benchmarking feature exports (BinaryMatrix, DenseBinaryMatrix, SparseBinaryMatrix) + to_octet_vec hook",
 ]
@@ -195,6 +196,8 @@ def sparse_seq(rng, tier):
                 ops.append([2, i, j])
         elif k == 5 and M.nd > 0:
             ops.append(rng.choice([[10, rng.below(M.h), M.fd()], [11, rng.below(M.h), M.fd()]]))
+        elif k == 5:
+            ops.append([11, rng.below(M.h), M.w])  # no dense columns: the answer is the empty list
         elif k == 6:
             a, b = rng.below(M.h), rng.below(M.h)
             M.m[a], M.m[b] = M.m[b], M.m[a]
@@ -233,6 +236,9 @@ def cases(rng, tier):
     # witnesses of the two repaired sparse defects
     cs.append(C.Case("bm_sparse", [11, 5, 0, 4, 4, 1, 3, 4, 1, 1, 13, 2, 12, 4, 3, 2, 3, 4], tag="sparse"))
     cs.append(C.Case("bm_sparse", [4, 3, 2, 4, 4, 1, 2, 2, 1, 1, 13, 4, 7, 0, 0, 1, 3, 2, 0, 0], tag="sparse"))
+    cs.append(C.Case("bm_sparse", [2, 2, 0, 1, 3, 11, 0, 2], tag="sparse"))
+    # debug/release agreement after disable + enable (staleness marks are reset)
+    cs.append(C.Case("bm_sparse", [3, 3, 0, 8, 4, 1, 0, 0, 1, 4, 1, 1, 0, 1, 1, 13, 4, 5, 1, 0, 0, 1, 14, 1, 13, 4, 9, 0, 0, 3, 3, 2, 1, 0], tag="sparse"))
     return cs
 
 
@@ -249,6 +255,8 @@ def evaluate(cs, rep, tier):
             continue  # the generator produced an op outside the Spec's admissibility: not judged
         if i != sp:
             counter.append({"input": c.impl_line()[:700], "expected": sp[:300], "observed": i[:300], "oracle": "Spec.BitMatrix (dense)"})
+    s_impl, s_model, s_dis = G.diff_impl_model(sparse, PROFILES, "sparse")
+    dis = dis + s_dis
     both = {p: C.run_impl(sparse, p) for p in PROFILES}
     spec_s = C.run_model([C.Case("spec_bm", [c.args[0], c.args[1], 0] + c.args[3:]) for c in sparse])
     judged = 0
